@@ -1,6 +1,6 @@
 (* ParseProofs3.v — C05: parse (print_toks e) = e on the fragment.  Part 3: the main induction. *)
 From Coq Require Import Lia String.
-From Cedar Require Import Unescape UnescapeProofs Printable ParseProofs ParseProofs2.
+From Cedar Require Import Unescape UnescapeProofs Printable ExprInd ParseProofs ParseProofs2.
 Open Scope N_scope.
 
 Lemma level_le7 e : (level e <= 7)%nat.
@@ -36,6 +36,61 @@ Proof.
 Qed.
 Lemma follow7_not_lparen rest : follow_ok 7 rest = true -> match rest with TLParen :: _ => False | _ => True end.
 Proof. destruct rest as [|[] ?]; cbn; intros H; try exact I; discriminate. Qed.
+
+Definition starts_expr (ts : list token) : bool :=
+  match ts with
+  | (TIdent _ | TNum _ | TStr _ | TSlot _ | TLParen | TLBrack | TLBrace | TBang | TMinus | TColon2) :: _ => true
+  | _ => false
+  end.
+Lemma starts_not_close ts : starts_expr ts = true ->
+  match ts with t :: _ => is_rparen t = false /\ is_rbrack t = false | [] => False end.
+Proof. destruct ts as [|[] ?]; cbn; intros H; try discriminate; split; reflexivity. Qed.
+
+Lemma need_pos e : (1 <= need e)%nat.
+Proof. destruct e; try destruct op; cbn; lia. Qed.
+Lemma need_list l : (fix go (l : list expr) : nat := match l with [] => O | x :: l' => (S (need x) + go l')%nat end) l = needs l.
+Proof. induction l as [|x l IH]; [reflexivity|]. cbn [needs]. rewrite <- IH. reflexivity. Qed.
+Lemma needs_In a l : In a l -> (need a < needs l)%nat.
+Proof. induction l as [|x l IH]; intros H; [contradiction|]. cbn [needs]. destruct H as [->|H]; [lia|]. specialize (IH H). lia. Qed.
+Lemma needs_length l : (length l <= needs l)%nat.
+Proof. induction l as [|x l IH]; cbn [length needs]; lia. Qed.
+
+Lemma args_loop_nil rec n close t rest : close t = true -> args_loop rec n close (t :: rest) = Some ([], rest).
+Proof. intros H. destruct n; cbn [args_loop]; rewrite H; reflexivity. Qed.
+Lemma args_loop_cons rec k close ts r ts1 e :
+  match ts with t :: _ => close t = false | [] => False end ->
+  rec ts = Some (r, ts1) -> into_expr r = Some e ->
+  args_loop rec (S k) close ts =
+    match ts1 with
+    | TComma :: ts2 => match args_loop rec k close ts2 with Some (es, r2) => Some (e :: es, r2) | None => None end
+    | t1 :: ts2 => if close t1 then Some ([e], ts2) else None
+    | [] => None
+    end.
+Proof. destruct ts as [|t ts']; [contradiction|]. intros Hc H Hi. cbn [args_loop]. rewrite Hc, H, Hi. reflexivity. Qed.
+
+Lemma pm_func rec fuel ts n ts2 args ts3 e :
+  parse_primary rec fuel ts = Some (EName n, TLParen :: ts2) ->
+  args_loop rec fuel is_rparen ts2 = Some (args, ts3) -> into_func n args = Some e ->
+  parse_member rec fuel ts = access_loop rec fuel fuel e ts3.
+Proof. intros H1 H2 H3. unfold parse_member. rewrite H1. cbn [access_start]. rewrite H2, H3. reflexivity. Qed.
+
+Lemma method_fn_facts m : existsb (str_eqb m) method_style_fns = true ->
+  unreserved m = true /\ forall r args, to_meth m r args = Some (ExtCall [m] (r :: args)).
+Proof.
+  unfold method_style_fns. cbn [map existsb]. intros H.
+  repeat (apply orb_true_iff in H; destruct H as [H|H]); try discriminate;
+    apply str_eqb_eq in H; subst m; (split; [reflexivity|intros; reflexivity]).
+Qed.
+
+Lemma function_fn_facts fn : is_function_name fn = true ->
+  exists b, fn = [b] /\ is_method_style fn = false /\ kw "if" b = false /\
+    (forall args, into_func fn args = Some (ExtCall fn args)) /\
+    (forall rec fuel X, parse_primary rec fuel (TIdent b :: TLParen :: X) = Some (EName [b], TLParen :: X)).
+Proof.
+  intros H. destruct fn as [|b [|? ?]]; try (cbn in H; discriminate H). unfold is_function_name, function_style_fns in H. cbn [map existsb] in H.
+  repeat (apply orb_true_iff in H; destruct H as [H|H]); try discriminate;
+    apply str_eqb_eq in H; subst b; eexists; repeat split; reflexivity.
+Qed.
 
 Section Main.
   Variable np : N -> bool.
@@ -257,10 +312,136 @@ Section Main.
     - rewrite name_toks_cons. cbn [app not_if_head]. rewrite Kif. reflexivity.
   Qed.
 
+  Lemma starts_mwp x rest : (forall r, starts_expr (PT x ++ r) = true) -> starts_expr (MWP x ++ rest) = true.
+  Proof. intros H. unfold mwp, wrapt. destruct (bare_operand x); [apply H|reflexivity]. Qed.
+
+  Lemma PT_starts e : forall rest, starts_expr (PT e ++ rest) = true.
+  Proof.
+    induction e as [p|v|s|n ty|c IHc t IHt e IHe|a IHa b IHb|a IHa b IHb|op a IHa|op a IHa b IHb
+                   |fn args IHargs|a IHa k|a IHa k|a IHa p|a IHa t|items IHitems|items IHitems] using expr_ind';
+      intros rest.
+    - destruct p as [b|z|s|u].
+      + destruct b; reflexivity.
+      + cbn [print_toks prim_toks]. destruct (z <? 0)%Z; reflexivity.
+      + reflexivity.
+      + cbn [print_toks prim_toks]. unfold uid_toks. destruct (uty u) as [|c p]; [reflexivity|].
+        rewrite name_toks_cons. reflexivity.
+    - destruct v; reflexivity.
+    - destruct s; reflexivity.
+    - reflexivity.
+    - reflexivity.
+    - destruct a; try (rewrite PT_and by reflexivity; rewrite <- app_assoc; apply starts_mwp; exact IHa).
+      rewrite PT_and_chain, <- app_assoc. apply IHa.
+    - destruct a; try (rewrite PT_or by reflexivity; rewrite <- app_assoc; apply starts_mwp; exact IHa).
+      rewrite PT_or_chain, <- app_assoc. apply IHa.
+    - destruct op; try reflexivity. cbn [print_toks]. rewrite <- app_assoc. apply (starts_mwp a). exact IHa.
+    - destruct (binop_tok op) as [tk|] eqn:Etk.
+      + destruct (same_assoc op a) eqn:Hs.
+        * rewrite (PT_infix_chain op tk a b Etk Hs), <- app_assoc. apply IHa.
+        * rewrite (PT_infix op tk a b Etk Hs), <- app_assoc. apply starts_mwp. exact IHa.
+      + cbn [print_toks]. rewrite Etk. rewrite <- app_assoc. apply (starts_mwp a). exact IHa.
+    - cbn [print_toks]. destruct (is_method_style fn); destruct args as [|r args'];
+        try (destruct fn as [|c p]; [reflexivity|rewrite name_toks_cons; reflexivity]).
+      rewrite <- app_assoc. apply (starts_mwp r). inversion IHargs; assumption.
+    - cbn [print_toks]. rewrite <- app_assoc. apply (starts_mwp a). exact IHa.
+    - cbn [print_toks]. rewrite <- app_assoc. apply (starts_mwp a). exact IHa.
+    - cbn [print_toks]. rewrite <- app_assoc. apply (starts_mwp a). exact IHa.
+    - cbn [print_toks]. rewrite <- app_assoc. apply (starts_mwp a). exact IHa.
+    - reflexivity.
+    - reflexivity.
+  Qed.
+
+  Lemma args_ok close ctok : close ctok = true -> match ctok with TComma => False | _ => True end ->
+    (forall ts, starts_expr ts = true -> match ts with t :: _ => close t = false | [] => False end) ->
+    (forall rest, follow_ok 0 (ctok :: rest) = true) ->
+    forall es f, Forall (fun e => printable e = true /\ main e) es -> (forall e, In e es -> (need e < f)%nat) ->
+    forall n rest, (length es <= n)%nat ->
+    args_loop (R f) n close (commas (map PT es) ++ ctok :: rest) = Some (es, rest).
+  Proof.
+    intros Hc Hnc Hs Hfo es f HF. induction HF as [|e es [Hp M] HF IH]; intros Hn n rest Hl.
+    - cbn [map commas app]. apply args_loop_nil. exact Hc.
+    - destruct n as [|k]; [cbn in Hl; lia|].
+      assert (need e < f)%nat as Hne by (apply Hn; left; reflexivity).
+      destruct es as [|e2 es'].
+      + cbn [map commas]. erewrite args_loop_cons;
+          [|apply Hs; apply PT_starts|apply (top e Hp M f Hne); apply Hfo|apply into_expr_sp; exact Hp].
+        destruct ctok; try contradiction; cbv beta iota; rewrite Hc; reflexivity.
+      + cbn [map]. change (commas (PT e :: PT e2 :: map PT es')) with (PT e ++ TComma :: commas (map PT (e2 :: es'))).
+        rewrite <- app_assoc. cbn [app]. erewrite args_loop_cons;
+          [|apply Hs; apply PT_starts|apply (top e Hp M f Hne); reflexivity|apply into_expr_sp; exact Hp].
+        cbv beta iota. rewrite IH; [reflexivity| |cbn [length] in *; lia]. intros x Hx. apply Hn. right. exact Hx.
+  Qed.
+
+  Lemma args_paren es f rest : Forall (fun e => printable e = true /\ main e) es ->
+    (forall e, In e es -> (need e < f)%nat) -> (length es <= f)%nat ->
+    args_loop (R f) f is_rparen (commas (map PT es) ++ TRParen :: rest) = Some (es, rest).
+  Proof.
+    intros HF Hn Hl. apply (args_ok is_rparen TRParen); try assumption; try reflexivity; try exact I.
+    intros ts H. pose proof (starts_not_close ts H) as Hx. destruct ts; [exact Hx|apply Hx].
+  Qed.
+  Lemma args_brack es f rest : Forall (fun e => printable e = true /\ main e) es ->
+    (forall e, In e es -> (need e < f)%nat) -> (length es <= f)%nat ->
+    args_loop (R f) f is_rbrack (commas (map PT es) ++ TRBrack :: rest) = Some (es, rest).
+  Proof.
+    intros HF Hn Hl. apply (args_ok is_rbrack TRBrack); try assumption; try reflexivity; try exact I.
+    intros ts H. pose proof (starts_not_close ts H) as Hx. destruct ts; [exact Hx|apply Hx].
+  Qed.
+
+  Definition Gform (e : expr) : Prop :=
+    forall f, (need e <= f)%nat -> forall rest, match rest with TLParen :: _ => False | _ => True end ->
+    exists n, (f <= n + need e)%nat /\ parse_member (R f) f (PT e ++ rest) = access_loop (R f) f n e rest.
+
+  Lemma member_A e : level e = 7%nat -> SP e = EExpr e -> Gform e ->
+    forall f, (need e <= f)%nat -> forall rest, follow_ok (level e) rest = true ->
+    parse_at (level e) (R f) f (PT e ++ rest) = Some (SP e, rest).
+  Proof.
+    intros E7 Es G f Hn rest Hr. rewrite E7 in *. rewrite Es. cbn [parse_at].
+    destruct (G f Hn rest (follow7_not_lparen rest Hr)) as (n & _ & He). rewrite He.
+    apply access_stop. apply follow7_no_access. exact Hr.
+  Qed.
+  Lemma member_B e : Gform e -> forall f, (need e <= f)%nat -> forall rest, acc_head rest = true ->
+    exists n, (f <= n + need e)%nat /\ parse_member (R f) f (PT e ++ rest) = access_loop (R f) f n e rest.
+  Proof. intros G f Hn rest Hr. apply (G f Hn rest). apply acc_head_facts. exact Hr. Qed.
+
+  (* a primary that converts to the expression itself (sets, records) *)
+  Lemma prim_G e : (forall f, (need e <= f)%nat -> forall rest,
+                      parse_primary (R f) f (PT e ++ rest) = Some (EExpr e, rest)) -> Gform e.
+  Proof.
+    intros H f Hn rest Hr. destruct (access_start rest) eqn:Ha.
+    - exists f. split; [lia|]. eapply pm_acc; [apply H; exact Hn|exact Ha|intros n; discriminate|reflexivity].
+    - exists f. split; [lia|]. rewrite (pm_noacc _ _ _ _ _ (H f Hn rest) Ha).
+      symmetry. apply access_stop. exact Ha.
+  Qed.
+
+  (* receiver . m ( args ) *)
+  Lemma method_call r m args e' rest f :
+    printable r = true -> main r -> Forall (fun e => printable e = true /\ main e) args ->
+    unreserved m = true -> to_meth m r args = Some e' ->
+    (S (need r) < f)%nat -> (forall a, In a args -> (need a < f)%nat) -> (length args <= f)%nat ->
+    exists n, (f <= n + S (S (need r)))%nat /\
+      parse_member (R f) f (MWP r ++ TDot :: TIdent m :: TLParen :: commas (map PT args) ++ TRParen :: rest)
+      = access_loop (R f) f n e' rest.
+  Proof.
+    intros Hp M HF Hu Hm Hf Hn Hl.
+    destruct (operand_acc r Hp M f ltac:(lia) (TDot :: TIdent m :: TLParen :: commas (map PT args) ++ TRParen :: rest) eq_refl)
+      as (n0 & Hn0 & He).
+    destruct n0 as [|n']; [lia|]. exists n'. split; [lia|]. rewrite He. cbn [access_loop].
+    rewrite Hu. rewrite (args_paren args f rest HF Hn Hl). rewrite Hm. reflexivity.
+  Qed.
+
+  Lemma Forall_pm l : Forall (fun e => in_fragment e = true -> printable e = true -> main e) l ->
+    forallb in_fragment l = true -> forallb printable l = true ->
+    Forall (fun e => printable e = true /\ main e) l.
+  Proof.
+    induction 1 as [|x l Hx HF IH]; intros H1 H2; [constructor|].
+    cbn [forallb] in H1, H2. apply andb_true_iff in H1. apply andb_true_iff in H2.
+    destruct H1 as [A1 B1]. destruct H2 as [A2 B2]. constructor; [split; [exact A2|apply Hx; assumption]|apply IH; assumption].
+  Qed.
+
   Theorem main_all e : in_fragment e = true -> printable e = true -> main e.
   Proof.
     induction e as [p|v|s|n ty|c IHc t IHt e IHe|a IHa b IHb|a IHa b IHb|op a IHa|op a IHa b IHb
-                   |fn args|a IHa k|a IHa k|a IHa p|a IHa t|items|items];
+                   |fn args IHargs|a IHa k|a IHa k|a IHa p|a IHa t|items IHitems|items IHitems] using expr_ind';
       intros Hf Hp; cbn [in_fragment printable] in Hf, Hp; try discriminate.
     - apply main_leaf; [exact I|exact Hp].
     - apply main_leaf; [exact I|exact Hp].
@@ -350,7 +531,7 @@ Section Main.
         apply or_loop_stop. apply follow_or. exact Hr.
       + exact C.
     - (* UnApp *)
-      destruct op; try discriminate; specialize (IHa Hf Hp).
+      destruct op; specialize (IHa Hf Hp).
       + (* Not *)
         constructor; try exact I; try (intros; reflexivity); try (cbn [level]; intros; contradiction); try (intros; discriminate).
         intros f Hn rest Hr. cbn [level parse_at need] in *.
@@ -364,12 +545,24 @@ Section Main.
         destruct (follow7_no_access rest H7) as [Hacc _].
         eapply parse_unary_neg_paren with (r := EExpr a); [|reflexivity].
         apply pm_noacc; [|exact Hacc]. apply paren_primary; [exact Hp|exact IHa|lia].
+      + (* isEmpty *)
+        assert (Gform (UnApp UIsEmpty a)) as G.
+        { intros f Hn rest Hnl. cbn [need] in Hn.
+          destruct (method_call a (ascii "isEmpty") [] (UnApp UIsEmpty a) rest f Hp IHa
+                      ltac:(constructor) eq_refl eq_refl ltac:(lia) ltac:(intros x []) ltac:(cbn; lia)) as (n & Hn1 & He).
+          exists n. split; [cbn [need]; lia|].
+          cbn [print_toks]. unfold tid. rewrite <- app_assoc. cbn [app]. exact He. }
+        constructor; try exact I.
+        * intros rest. cbn [print_toks]. rewrite <- app_assoc. apply (head_mwp a _ IHa).
+        * intros _ rest. cbn [print_toks]. rewrite <- app_assoc. apply (head_mwp a _ IHa).
+        * intros _ _ rest. cbn [print_toks]. rewrite <- app_assoc. apply (head_mwp a _ IHa).
+        * apply member_A; [reflexivity|reflexivity|exact G].
+        * intros _. apply member_B. exact G.
     - (* BinApp *)
-      destruct (binop_tok op) as [tk|] eqn:Etk; [|discriminate].
       apply andb_true_iff in Hf. destruct Hf as [Hfa Hfb].
       apply andb_true_iff in Hp. destruct Hp as [Hpa Hpb].
       specialize (IHa Hfa Hpa). specialize (IHb Hfb Hpb).
-      destruct op; try discriminate Etk; clear Etk tk.
+      destruct op.
         { (* == *)
           assert (forall rest, starts_path (PT (BinApp BEq a b) ++ rest) = false /\ not_if_head (PT (BinApp BEq a b) ++ rest) = true
                                /\ head_plain (PT (BinApp BEq a b) ++ rest) = true) as Hh
@@ -520,6 +713,123 @@ Section Main.
             destruct (operand a Hpa IHa f ltac:(lia) 4%nat ltac:(lia) (tid "in" :: MWP b ++ rest) eq_refl) as (ra & Ha & Ia).
             destruct (operand b Hpb IHb f ltac:(lia) 4%nat ltac:(lia) rest ltac:(eapply follow_mono; [exact Hr|lia])) as (rb & Hb & Ib).
             eapply parse_rel_relop; try eassumption; try reflexivity. apply follow_rel; exact Hr. }
+        { (* contains *)
+          assert (Gform (BinApp BContains a b)) as G.
+          { intros f Hn rest Hnl. cbn [need] in Hn. pose proof (need_pos b).
+            destruct (method_call a (ascii "contains") [b] (BinApp BContains a b) rest f Hpa IHa
+                        ltac:(constructor; [split; assumption|constructor]) eq_refl eq_refl ltac:(lia)
+                        ltac:(intros x [<-|[]]; lia) ltac:(cbn; lia)) as (n & Hn1 & He).
+            exists n. split; [cbn [need]; lia|].
+            cbn [print_toks binop_tok binop_method_name]. unfold tid. rewrite <- app_assoc. cbn [app]. rewrite <- app_assoc.
+            exact He. }
+          constructor; try exact I.
+          - intros rest. cbn [print_toks binop_tok]. rewrite <- app_assoc. apply (head_mwp a _ IHa).
+          - intros _ rest. cbn [print_toks binop_tok]. rewrite <- app_assoc. apply (head_mwp a _ IHa).
+          - intros _ _ rest. cbn [print_toks binop_tok]. rewrite <- app_assoc. apply (head_mwp a _ IHa).
+          - apply member_A; [reflexivity|reflexivity|exact G].
+          - intros _. apply member_B. exact G. }
+        { (* containsAll *)
+          assert (Gform (BinApp BContainsAll a b)) as G.
+          { intros f Hn rest Hnl. cbn [need] in Hn. pose proof (need_pos b).
+            destruct (method_call a (ascii "containsAll") [b] (BinApp BContainsAll a b) rest f Hpa IHa
+                        ltac:(constructor; [split; assumption|constructor]) eq_refl eq_refl ltac:(lia)
+                        ltac:(intros x [<-|[]]; lia) ltac:(cbn; lia)) as (n & Hn1 & He).
+            exists n. split; [cbn [need]; lia|].
+            cbn [print_toks binop_tok binop_method_name]. unfold tid. rewrite <- app_assoc. cbn [app]. rewrite <- app_assoc.
+            exact He. }
+          constructor; try exact I.
+          - intros rest. cbn [print_toks binop_tok]. rewrite <- app_assoc. apply (head_mwp a _ IHa).
+          - intros _ rest. cbn [print_toks binop_tok]. rewrite <- app_assoc. apply (head_mwp a _ IHa).
+          - intros _ _ rest. cbn [print_toks binop_tok]. rewrite <- app_assoc. apply (head_mwp a _ IHa).
+          - apply member_A; [reflexivity|reflexivity|exact G].
+          - intros _. apply member_B. exact G. }
+        { (* containsAny *)
+          assert (Gform (BinApp BContainsAny a b)) as G.
+          { intros f Hn rest Hnl. cbn [need] in Hn. pose proof (need_pos b).
+            destruct (method_call a (ascii "containsAny") [b] (BinApp BContainsAny a b) rest f Hpa IHa
+                        ltac:(constructor; [split; assumption|constructor]) eq_refl eq_refl ltac:(lia)
+                        ltac:(intros x [<-|[]]; lia) ltac:(cbn; lia)) as (n & Hn1 & He).
+            exists n. split; [cbn [need]; lia|].
+            cbn [print_toks binop_tok binop_method_name]. unfold tid. rewrite <- app_assoc. cbn [app]. rewrite <- app_assoc.
+            exact He. }
+          constructor; try exact I.
+          - intros rest. cbn [print_toks binop_tok]. rewrite <- app_assoc. apply (head_mwp a _ IHa).
+          - intros _ rest. cbn [print_toks binop_tok]. rewrite <- app_assoc. apply (head_mwp a _ IHa).
+          - intros _ _ rest. cbn [print_toks binop_tok]. rewrite <- app_assoc. apply (head_mwp a _ IHa).
+          - apply member_A; [reflexivity|reflexivity|exact G].
+          - intros _. apply member_B. exact G. }
+        { (* getTag *)
+          assert (Gform (BinApp BGetTag a b)) as G.
+          { intros f Hn rest Hnl. cbn [need] in Hn. pose proof (need_pos b).
+            destruct (method_call a (ascii "getTag") [b] (BinApp BGetTag a b) rest f Hpa IHa
+                        ltac:(constructor; [split; assumption|constructor]) eq_refl eq_refl ltac:(lia)
+                        ltac:(intros x [<-|[]]; lia) ltac:(cbn; lia)) as (n & Hn1 & He).
+            exists n. split; [cbn [need]; lia|].
+            cbn [print_toks binop_tok binop_method_name]. unfold tid. rewrite <- app_assoc. cbn [app]. rewrite <- app_assoc.
+            exact He. }
+          constructor; try exact I.
+          - intros rest. cbn [print_toks binop_tok]. rewrite <- app_assoc. apply (head_mwp a _ IHa).
+          - intros _ rest. cbn [print_toks binop_tok]. rewrite <- app_assoc. apply (head_mwp a _ IHa).
+          - intros _ _ rest. cbn [print_toks binop_tok]. rewrite <- app_assoc. apply (head_mwp a _ IHa).
+          - apply member_A; [reflexivity|reflexivity|exact G].
+          - intros _. apply member_B. exact G. }
+        { (* hasTag *)
+          assert (Gform (BinApp BHasTag a b)) as G.
+          { intros f Hn rest Hnl. cbn [need] in Hn. pose proof (need_pos b).
+            destruct (method_call a (ascii "hasTag") [b] (BinApp BHasTag a b) rest f Hpa IHa
+                        ltac:(constructor; [split; assumption|constructor]) eq_refl eq_refl ltac:(lia)
+                        ltac:(intros x [<-|[]]; lia) ltac:(cbn; lia)) as (n & Hn1 & He).
+            exists n. split; [cbn [need]; lia|].
+            cbn [print_toks binop_tok binop_method_name]. unfold tid. rewrite <- app_assoc. cbn [app]. rewrite <- app_assoc.
+            exact He. }
+          constructor; try exact I.
+          - intros rest. cbn [print_toks binop_tok]. rewrite <- app_assoc. apply (head_mwp a _ IHa).
+          - intros _ rest. cbn [print_toks binop_tok]. rewrite <- app_assoc. apply (head_mwp a _ IHa).
+          - intros _ _ rest. cbn [print_toks binop_tok]. rewrite <- app_assoc. apply (head_mwp a _ IHa).
+          - apply member_A; [reflexivity|reflexivity|exact G].
+          - intros _. apply member_B. exact G. }
+    - (* ExtCall *)
+      apply andb_true_iff in Hp. destruct Hp as [Hok Hpa].
+      pose proof (Forall_pm args IHargs Hf Hpa) as HF. clear IHargs.
+      assert (need (ExtCall fn args) = S (needs args)) as En by (cbn [need]; rewrite need_list; reflexivity).
+      unfold ext_ok in Hok. destruct (is_function_name fn) eqn:Efn.
+      + (* function style *)
+        destruct (function_fn_facts fn Efn) as (b & -> & Hms & Kif & Hfunc & Hprim).
+        assert (forall rest, PT (ExtCall [b] args) ++ rest = TIdent b :: TLParen :: commas (map PT args) ++ TRParen :: rest) as EP.
+        { intros rest. cbn [print_toks]. rewrite Hms. cbn [name_toks app]. rewrite <- app_assoc. reflexivity. }
+        assert (Gform (ExtCall [b] args)) as G.
+        { intros f Hn rest Hnl. rewrite En in *. exists f. split; [lia|]. rewrite EP.
+          eapply pm_func; [apply Hprim| |apply Hfunc].
+          apply args_paren; [exact HF| |pose proof (needs_length args); lia].
+          intros x Hx. pose proof (needs_In x args Hx). lia. }
+        constructor; try exact I.
+        * intros rest. rewrite EP. reflexivity.
+        * intros _ rest. rewrite EP. cbn [not_if_head]. rewrite Kif. reflexivity.
+        * intros _ _ rest. rewrite EP. reflexivity.
+        * apply member_A; [reflexivity|reflexivity|exact G].
+        * intros _. apply member_B. exact G.
+      + (* method style *)
+        cbn [orb] in Hok. apply andb_true_iff in Hok. destruct Hok as [Hms Hne].
+        destruct args as [|r args']; [cbn in Hne; discriminate Hne|].
+        destruct fn as [|m [|? ?]]; try (cbn in Hms; discriminate Hms).
+        cbn [is_method_style] in Hms. destruct (method_fn_facts m Hms) as [Hu Hmeth].
+        inversion HF as [|? ? [Hpr Mr] HF']; subst.
+        assert (forall rest, PT (ExtCall [m] (r :: args')) ++ rest
+                  = MWP r ++ TDot :: TIdent m :: TLParen :: commas (map PT args') ++ TRParen :: rest) as EP.
+        { intros rest. cbn [print_toks]. cbn [is_method_style]. rewrite Hms. cbn [name_toks].
+          rewrite <- app_assoc. cbn [app]. rewrite <- app_assoc. reflexivity. }
+        assert (Gform (ExtCall [m] (r :: args'))) as G.
+        { intros f Hn rest Hnl. rewrite En in *. cbn [needs] in *.
+          destruct (method_call r m args' (ExtCall [m] (r :: args')) rest f Hpr Mr HF' Hu (Hmeth r args')
+                      ltac:(lia) ltac:(intros x Hx; pose proof (needs_In x args' Hx); lia)
+                      ltac:(pose proof (needs_length args'); lia)) as (n & Hn1 & He).
+          exists n. split; [lia|]. rewrite EP. exact He. }
+        constructor; try exact I.
+        * intros rest. rewrite EP. apply (head_mwp r _ Mr).
+        * intros _ rest. rewrite EP. apply (head_mwp r _ Mr).
+        * intros _ _ rest. rewrite EP. apply (head_mwp r _ Mr).
+        * apply member_A; [reflexivity|reflexivity|exact G].
+        * intros _. apply member_B. exact G.
     - (* GetAttr *)
       apply andb_true_iff in Hp. destruct Hp as [Hpa Hk]. specialize (IHa Hf Hpa).
       assert (forall f, (need (GetAttr a k) <= f)%nat -> forall rest,
@@ -580,6 +890,16 @@ Section Main.
         destruct (name_at (R f) f t rest Hk Hr) as (rt & Hrt & Hty).
         fold (mwp np ge a).
         eapply parse_rel_is; [exact Ha|exact Ia|exact Hrt|exact Hty|apply follow3_not_in; exact Hr].
+    - (* SetE *)
+      pose proof (Forall_pm items IHitems Hf Hp) as HF. clear IHitems.
+      assert (need (SetE items) = S (needs items)) as En by (cbn [need]; rewrite need_list; reflexivity).
+      assert (Gform (SetE items)) as G.
+      { apply prim_G. intros f Hn rest. rewrite En in *. cbn [print_toks app]. rewrite <- app_assoc. cbn [app parse_primary].
+        rewrite args_brack; [reflexivity|exact HF| |pose proof (needs_length items); lia].
+        intros x Hx. pose proof (needs_In x items Hx). lia. }
+      constructor; try exact I; try (intros; reflexivity).
+      * apply member_A; [reflexivity|reflexivity|exact G].
+      * intros _. apply member_B. exact G.
   Qed.
 End Main.
 
@@ -593,10 +913,21 @@ Section Final.
   Lemma mwp_length x : (length (PT x) <= length (MWP x))%nat.
   Proof. unfold mwp, wrapt. destruct (bare_operand x); cbn [length]; rewrite ?app_length; cbn [length]; lia. Qed.
 
+  Lemma commas_len l : Forall (fun e => in_fragment e = true -> (need e <= length (PT e))%nat) l ->
+    forallb in_fragment l = true -> (needs l <= length (commas (map PT l)) + 1)%nat.
+  Proof.
+    induction 1 as [|x l Hx HF IH]; intros Hf; [cbn; lia|].
+    cbn [forallb] in Hf. apply andb_true_iff in Hf. destruct Hf as [Hfx Hfl].
+    specialize (Hx Hfx). specialize (IH Hfl). destruct l as [|y l'].
+    - cbn [map commas needs]. lia.
+    - cbn [map]. change (commas (PT x :: PT y :: map PT l')) with (PT x ++ TComma :: commas (map PT (y :: l'))).
+      rewrite app_length. cbn [length]. cbn [needs] in *. lia.
+  Qed.
+
   Lemma need_le_length e : in_fragment e = true -> (need e <= length (PT e))%nat.
   Proof.
     induction e as [p|v|s|n ty|c IHc t IHt e IHe|a IHa b IHb|a IHa b IHb|op a IHa|op a IHa b IHb
-                   |fn args|a IHa k|a IHa k|a IHa p|a IHa t|items|items];
+                   |fn args IHargs|a IHa k|a IHa k|a IHa p|a IHa t|items IHitems|items IHitems] using expr_ind';
       intros Hf; cbn [in_fragment] in Hf; try discriminate.
     - destruct p as [b|z|s|u]; cbn [need print_toks prim_toks].
       + destruct b; cbn; lia.
@@ -616,14 +947,25 @@ Section Final.
       specialize (IHa Hfa). specialize (IHb Hfb). pose proof (mwp_length a). pose proof (mwp_length b).
       destruct a; try (rewrite (PT_or np ge) by reflexivity; cbn [need] in *; rewrite app_length; cbn [length]; lia).
       rewrite PT_or_chain. cbn [need] in *. rewrite app_length. cbn [length]. lia.
-    - destruct op; try discriminate; specialize (IHa Hf); cbn [need print_toks length];
+    - destruct op; specialize (IHa Hf); cbn [need print_toks length];
         repeat (rewrite app_length || cbn [length]); pose proof (mwp_length a); fold (mwp np ge a); lia.
-    - destruct (binop_tok op) as [tk|] eqn:Etk; [|discriminate].
-      apply andb_true_iff in Hf. destruct Hf as [Hfa Hfb].
+    - apply andb_true_iff in Hf. destruct Hf as [Hfa Hfb].
       specialize (IHa Hfa). specialize (IHb Hfb). pose proof (mwp_length a). pose proof (mwp_length b).
-      destruct (same_assoc op a) eqn:Hsa.
-      + rewrite (PT_infix_chain np ge op tk a b Etk Hsa). cbn [need]. rewrite app_length. cbn [length]. lia.
-      + rewrite (PT_infix np ge op tk a b Etk Hsa). cbn [need]. rewrite app_length. cbn [length]. lia.
+      destruct (binop_tok op) as [tk|] eqn:Etk.
+      + destruct (same_assoc op a) eqn:Hsa.
+        * rewrite (PT_infix_chain np ge op tk a b Etk Hsa). cbn [need]. rewrite app_length. cbn [length]. lia.
+        * rewrite (PT_infix np ge op tk a b Etk Hsa). cbn [need]. rewrite app_length. cbn [length]. lia.
+      + cbn [need print_toks]. rewrite Etk. fold (mwp np ge a).
+        repeat (rewrite app_length || cbn [length]). lia.
+    - (* ExtCall *)
+      assert (need (ExtCall fn args) = S (needs args)) as En by (cbn [need]; rewrite need_list; reflexivity).
+      rewrite En. cbn [print_toks]. destruct (is_method_style fn); destruct args as [|r args'].
+      + pose proof (commas_len [] IHargs Hf). repeat (rewrite app_length || cbn [length]). cbn in *. lia.
+      + inversion IHargs as [|? ? Hr HF']; subst. cbn [forallb] in Hf. apply andb_true_iff in Hf. destruct Hf as [Hfr Hfa].
+        pose proof (commas_len args' HF' Hfa). specialize (Hr Hfr). pose proof (mwp_length r). fold (mwp np ge r).
+        cbn [needs]. repeat (rewrite app_length || cbn [length]). lia.
+      + pose proof (commas_len [] IHargs Hf). repeat (rewrite app_length || cbn [length]). cbn in *. lia.
+      + pose proof (commas_len (r :: args') IHargs Hf). repeat (rewrite app_length || cbn [length]). lia.
     - specialize (IHa Hf). cbn [need print_toks]. fold (mwp np ge a). rewrite app_length.
       pose proof (mwp_length a). destruct (is_normalized_ident k); cbn [length]; lia.
     - specialize (IHa Hf). cbn [need print_toks]. fold (mwp np ge a). rewrite app_length.
@@ -632,6 +974,10 @@ Section Final.
       pose proof (mwp_length a). cbn [length]. lia.
     - specialize (IHa Hf). cbn [need print_toks]. fold (mwp np ge a). rewrite app_length.
       pose proof (mwp_length a). cbn [length]. lia.
+    - (* SetE *)
+      assert (need (SetE items) = S (needs items)) as En by (cbn [need]; rewrite need_list; reflexivity).
+      rewrite En. pose proof (commas_len items IHitems Hf). cbn [print_toks].
+      repeat (rewrite app_length || cbn [length]). lia.
   Qed.
 
   Theorem expr_roundtrip_rest e rest :
